@@ -264,10 +264,10 @@ Proof.
   - destruct Post as (_ & Ht & _). destruct (Ht eq_refl) as (x & Hx & Ex).
     rewrite <- Ec in Ex.
     destruct (vec_replace _ _ _ c S Hx Ex) as [S' In'].
-    eexists. split; [reflexivity|]. split; [apply Inv_tset; auto|auto].
+    eexists. split; [reflexivity|]. split; [apply Inv_tset; auto|rewrite <- Ec; auto].
   - pose proof (bs_false_fresh _ _ _ Post) as Fresh. rewrite <- Ec in Fresh.
     destruct (vec_insert _ c S Fresh) as [S' In'].
-    eexists. split; [reflexivity|]. split; [apply Inv_tset; auto|auto].
+    eexists. split; [reflexivity|]. split; [apply Inv_tset; auto|rewrite <- Ec; auto].
 Qed.
 
 (* ================= Del ================= *)
@@ -342,13 +342,13 @@ Lemma step_Inv t o : Inv t -> Inv (fst (step t o)) /\ snd (step t o) <> RLook Cr
 Proof.
   intros I. destruct o as [c|n|p|src]; simpl.
   - destruct (cname c) as [|b rest] eqn:Ec.
-    + rewrite add_empty by exact Ec. simpl. repeat split; [exact I|discriminate|discriminate].
+    + rewrite add_empty by exact Ec. simpl. split; [exact I|split; [discriminate|discriminate]].
     + destruct (add_spec t c I) as (t' & -> & I' & _); [congruence|]. simpl.
-      repeat split; [exact I'|discriminate|discriminate].
+      split; [exact I'|split; [discriminate|discriminate]].
   - destruct (del_spec t n I) as (t' & r & -> & I' & _). simpl.
-    repeat split; [exact I'|discriminate|discriminate].
-  - repeat split; [exact I| |discriminate]. intros E. inversion E as [E']. eapply lookup_no_crash; eauto.
-  - repeat split; [exact I|discriminate|]. intros E. inversion E as [E']. eapply dispatch_no_crash; eauto.
+    split; [exact I'|split; [discriminate|discriminate]].
+  - split; [exact I|split; [ |discriminate]]. intros E. inversion E as [E']. eapply lookup_no_crash; eauto.
+  - split; [exact I|split; [discriminate|]]. intros E. inversion E as [E']. eapply dispatch_no_crash; eauto.
 Qed.
 
 Lemma run_cons t o ops : run t (o :: ops) =
@@ -360,7 +360,7 @@ Lemma run_Inv ops : forall t, Inv t ->
 Proof.
   induction ops as [|o ops IH]; intros t I; [simpl; auto|].
   rewrite run_cons. simpl. destruct (step_Inv t o I) as (I1 & N1 & N2).
-  destruct (IH _ I1) as (I2 & M1 & M2). repeat split; [exact I2| |]; intros [H|H]; auto.
+  destruct (IH _ I1) as (I2 & M1 & M2). split; [exact I2|split]; intros [H|H]; auto.
 Qed.
 
 Theorem sorted_invariant ops : Inv (run_table ops).
@@ -409,7 +409,7 @@ Proof.
   - unfold a_add. destruct (cname c) as [|b rest] eqn:Ec.
     + rewrite add_empty by exact Ec. simpl. auto.
     + destruct (add_spec t c I) as (t' & -> & _ & H); [congruence|]. simpl. split; [|reflexivity].
-      intros d. rewrite H. simpl. rewrite a_remove_in, (R d), Ec. tauto.
+      intros d. rewrite H. simpl. rewrite a_remove_in, (R d), Ec. split; (intros [Q|Q]; [left; congruence|right; exact Q]).
   - destruct (del_spec t n I) as (t' & r & -> & _ & H & Hr). simpl. split.
     + intros d. rewrite H, a_remove_in, (R d). tauto.
     + f_equal. destruct (existsb (name_is n) s) eqn:E.
@@ -461,7 +461,7 @@ Lemma no_match_lookup t p : Inv t -> (forall d, has t d -> prefixb p (cname d) =
 Proof.
   intros I H. destruct p as [|b rest]; [reflexivity|].
   pose proof (lookup_spec t (b :: rest) I ltac:(discriminate)) as K.
-  destruct (lookup t (b :: rest)) as [c| |ns|]; simpl in K; [|reflexivity| |contradiction].
+  destruct (lookup t (b :: rest)) as [c| |ns|]; unfold lookup_ok in K; [|reflexivity| |contradiction].
   - destruct K as (Hc & Pc & _). rewrite (H c Hc) in Pc. discriminate.
   - destruct K as (_ & L & _ & Hn). destruct ns as [|n ns]; [simpl in L; lia|].
     destruct (Hn n) as [Q _]. destruct (Q (or_introl eq_refl)) as (d & Hd & E & Pd).
